@@ -159,12 +159,29 @@ Definition instr_ret_arr (a : Z) (st : state) : exc state :=
   _ <- arrays_get_array st a ;;                         (* self._get_array *)
   Ok (publish a st).                                    (* init_new_array(new_array=array): same object *)
 
-(* Executor._allocate_physical_qubit on the unit module *)
+(* Executor._get_unused_physical_qubit: `for physical_address in count(0)`, the
+   first one not in the in-use set; it is ALSO added to the set here.  (count(0)
+   is bounded by len(set)+1 candidates; "should never get here" otherwise.) *)
+Fixpoint count_unused (fuel : nat) (k : Z) (u : list Z) : exc Z :=
+  match fuel with
+  | O => Raise FBook
+  | S f => if set_mem k u then count_unused f (k + 1) u else Ok k
+  end.
+Definition get_unused_physical_qubit (u : list Z) : exc (Z * list Z) :=
+  p <- count_unused (S (List.length u)) 0 u ;; Ok (p, set_add p u).
+
+(* Executor._allocate_physical_qubit: range check, already-allocated check, THEN
+   the physical qubit is chosen and (again) added to the in-use set *)
 Definition allocate_physical_qubit (st : state) (q : Z) : exc state :=
   if Zlen (um st) <=? q then Raise FUnitRange
   else c <- py_getitem (um st) q ;;
-       if c then Raise FAlloc
-       else m <- py_setitem (um st) q true ;; Ok (with_um st m).
+       match c with
+       | Some _ => Raise FAlloc
+       | None =>
+           pu <- get_unused_physical_qubit (used st) ;;
+           let u' := set_add (fst pu) (snd pu) in
+           m <- py_setitem (um st) q (Some (fst pu)) ;; Ok (with_um st m u')
+       end.
 
 Definition instr_qalloc (r : reg) (st : state) : exc state :=
   qa <- get_register st r ;;
@@ -173,11 +190,16 @@ Definition instr_qalloc (r : reg) (st : state) : exc state :=
   | Some q => allocate_physical_qubit st q
   end.
 
-(* Executor._free_physical_qubit *)
+(* Executor._free_physical_qubit: unit_module[address] = None, then
+   _used_physical_qubit_addresses.remove(physical_address) (KeyError if absent) *)
 Definition free_physical_qubit (st : state) (q : Z) : exc state :=
   c <- py_getitem (um st) q ;;
-  if c then m <- py_setitem (um st) q false ;; Ok (with_um st m)
-  else Raise FFree.
+  match c with
+  | None => Raise FFree
+  | Some p =>
+      m <- py_setitem (um st) q None ;;
+      if set_mem p (used st) then Ok (with_um st m (set_remove p (used st))) else Raise FBook
+  end.
 
 Definition instr_qfree (r : reg) (st : state) : exc state :=
   qa <- get_register st r ;;
